@@ -32,6 +32,7 @@ type HistoryOpts struct {
 	EmptyEvery   int           // every k-th block is proposed from an empty mempool view? (0 = never) – handled by caller
 	Participate  float64       // probability that a user takes part in a ceremony (default 0.75); god always does
 	Always       map[int]bool  // users that always take part (e.g. the key of a second proposing replica)
+	Contracts    bool          // users deploy / fund / call / terminate real embedded contracts (TimeLock, Multisig) in the None period (contracts.go)
 }
 
 func ShortValidation() *config.ValidationConfig {
@@ -49,17 +50,18 @@ type cerPlan struct {
 }
 
 type History struct {
-	plans  map[int]*cerPlan
-	W      *World
-	N      *Node
-	R      *rand.Rand
-	O      HistoryOpts
-	S      *Sender
-	Stats  map[string]int
-	sent   map[string]bool
-	part   map[int]bool
-	lastP  state.ValidationPeriod
-	Height int
+	plans     map[int]*cerPlan
+	W         *World
+	N         *Node
+	R         *rand.Rand
+	O         HistoryOpts
+	S         *Sender
+	Stats     map[string]int
+	sent      map[string]bool
+	part      map[int]bool
+	lastP     state.ValidationPeriod
+	Height    int
+	Contracts []*ContractInfo // contracts deployed by this history (HistoryOpts.Contracts)
 }
 
 func NewHistory(w *World, n *Node, r *rand.Rand, o HistoryOpts) *History {
@@ -131,6 +133,9 @@ func (h *History) OfferTxs(b int) {
 					h.try(i, fmt.Sprint("flip", b), &types.Transaction{Type: types.SubmitFlipTx, Payload: attachments.CreateFlipSubmitAttachment(c.Bytes(), uint8(len(id.Flips)))})
 				}
 			}
+		}
+		if h.O.Contracts {
+			h.OfferContractTxs(b)
 		}
 		for i := range h.O.Always {
 			// users that must stay able to propose: back online after every epoch change, no random transactions
